@@ -96,7 +96,8 @@ class IncrementalPFI(BaseIncrementalFeatureImportance):
         Returns:
             (dict): The current PFI feature importance scores.
         """
-        if self.seen_samples >= 1:
+        explain = self.seen_samples >= 1
+        if explain:
             if n_inner_samples is None:
                 n_inner_samples = self.n_inner_samples
             original_prediction = self._model_function(x_i)
@@ -112,11 +113,12 @@ class IncrementalPFI(BaseIncrementalFeatureImportance):
                 losses = [self._loss_function(y_i, prediction) for prediction in predictions]
                 avg_loss = np.mean(losses)
                 pfi[feature] = avg_loss - original_loss
+        if update_storage:
+            self._storage.update(x_i, y_i)
+        if explain:  # all callbacks have returned: commit the estimates of this observation
             self._importance_trackers.update(pfi)
             variances = {feature: (pfi[feature] - self.importance_values[feature]) ** 2
                          for feature in self.feature_names}
             self._variance_trackers.update(variances)
         self.seen_samples += 1
-        if update_storage:
-            self._storage.update(x_i, y_i)
         return self.importance_values
